@@ -163,7 +163,7 @@ def run(ctx):
     ctx.assumptions += ["paths are compared as spelled (lexically): a '..' hop below the audio directory and a symlinked sub-directory are part of the spelling", "a failed save must leave the target path absent (or byte-identical to a pre-existing file)"]
     ctx.must_monitors += ["paths_saved", "paths_loaded", "save_rejection"]
     ctx.must_reach += ["io/aoef/recording.py::RecordingAdapter.assemble_aoef", "io/aoef/recording.py::RecordingAdapter.assemble_soundevent"]
-    n = ctx.scale(70, 250)
+    n = ctx.scale(120, 250)
     for kind in graphs.COLLECTIONS:
         for i in range(n):
             knobs = {"p_opt": rng.choice([0.3, 0.8]), "p_share": rng.choice([0.2, 0.6]), "size": rng.choice([1, 2, 3])}
